@@ -56,6 +56,17 @@
 (*                 replaced by the first activation's hint object, proxies *)
 (*                 and their cached referents included                     *)
 (*   CacheFailure  a failed resolution is remembered by the proxy          *)
+(*   MembershipOnly  a resolved proxy is checked with isinstance() alone:  *)
+(*                 the pseudo-superclass of a user generic, class          *)
+(*                 N(list[int]), is not checked (BeartypeForwardRefMeta.   *)
+(*                 __instancecheck__ taking its fast path for unsubscripted*)
+(*                 generics)                                               *)
+(*                                                                         *)
+(* Classes are of two kinds (variable gk, per program, for the name N):    *)
+(* "plain"  class N: pass,  and "gen"  class N(list[int]): pass -- a user  *)
+(* generic whose instances carry contents that conform (N([1]), q = "ok")  *)
+(* or not (N(['a']), q = "bad").  The evaluated annotation N rejects the   *)
+(* latter; so does Want.                                                   *)
 (*                                                                         *)
 (* Declarative side: Want(f, obj) -- the outcomes C07 allows: the verdict  *)
 (* of the hint with each name replaced by the class the EVALUATED variant  *)
@@ -73,7 +84,8 @@ CONSTANTS Placements,    \* subset of AllPlacements
           MaxSteps,      \* statements per program
           MaxDefs,       \* executed class statements for the names N / K
           MaxCalls,      \* calls per program
-          GlobalFirst, FakeFallback, FrameByCode, SharedProxy, CacheFailure
+          Kinds,         \* subset of {"plain", "gen"}: what the class statements of the name N define
+          GlobalFirst, FakeFallback, FrameByCode, SharedProxy, CacheFailure, MembershipOnly
 
 AllPlacements == {"modfunc",      \* def f at module level
                   "method",       \* class C: @beartype def m
@@ -91,6 +103,7 @@ StrForms == {"str", "post", "inner"}   \* 'list[N]',  from __future__ import ann
 
 VARIABLES p,        \* placement of this program
           h,        \* hint shape of the decorated parameter
+          gk,       \* kind of the classes named N in this program: "plain" or "gen"
           lnames,   \* names that are local variables of the enclosing function (closure placements):
                     \* Python decides this when it compiles the function, not when it runs
           pc,       \* where the program is: M M0 M1 M2 (module level)  C C0 C1  D  F1 F2
@@ -100,7 +113,7 @@ VARIABLES p,        \* placement of this program
           body,     \* statements executed by the first activation (replayed by the second)
           last,     \* the last statement and, for Call, what happened and what C07 allows
           steps, ncalls
-vars == <<p, h, lnames, pc, bind, cls, fn, body, last, steps, ncalls>>
+vars == <<p, h, gk, lnames, pc, bind, cls, fn, body, last, steps, ncalls>>
 
 IsCD  == p \in {"method_cd", "nmethod_cd"}
 IsFun == p \in {"closure", "cmethod"}
@@ -109,6 +122,7 @@ HintNames(hh, pp) == CASE hh = "tuple" -> {"N", "K"} [] hh = "Self" -> {SelfName
 HN == HintNames(h, p)
 N1 == IF h = "Self" THEN SelfName(p) ELSE "N"          \* the (first) name of the hint
 Definable == HN \ {"C", "D"}
+KindOf(n) == IF n = "N" THEN gk ELSE "plain"
 
 Home(act) == CASE p = "modfunc" -> "M"
                [] p \in {"method", "method_cd"} -> "C"
@@ -135,9 +149,9 @@ Lex(home, n, b) == IF LocalName(home, n, b) THEN b[home][n] ELSE b["M"][n]
 Rec(k, c, loc, o, w) == [k |-> k, c |-> c, loc |-> loc, o |-> o, w |-> w]
    \* o, w (attribution only): the route that produced the referent, the callable whose check did
 NoRec == Rec("none", 0, FALSE, "", 0)
-Atom(t, c) == [t |-> t, c |-> c]
-NoneAtom == Atom("none", 0)
-Unrel == Atom("unrel", 0)                  \* instance of an unrelated, differently named class
+Atom(t, c, q) == [t |-> t, c |-> c, q |-> q]      \* q: contents of an instance of a generic: "ok" / "bad"
+NoneAtom == Atom("none", 0, "")
+Unrel == Atom("unrel", 0, "")                  \* instance of an unrelated, differently named class
 Obj(shape, a, b) == [shape |-> shape, a |-> a, b |-> b]
 NoObj == Obj("atom", NoneAtom, NoneAtom)
 NoGot == [str |-> "na", post |-> "na", inner |-> "na", ev |-> "na"]
@@ -194,8 +208,12 @@ Resolve(r, hm, n, b, f) ==
        ELSE IF b[hm][n] # 0 THEN Pin(b[hm][n], "cell") ELSE fail
 
 \* isinstance(atom, referent)
+\* a captured class is an ordinary hint: a user generic is checked with its pseudo-superclass
+\* (contents); a resolved proxy goes through BeartypeForwardRefMeta.__instancecheck__
+Conforms(c, a) == cls[c].kind = "gen" => a.q = "ok"
 Match(r, n, a) == IF r.k = "fake" THEN a.t = "inst" /\ cls[a.c].name = n
-                  ELSE a.t = "inst" /\ a.c = r.c
+                  ELSE /\ a.t = "inst" /\ a.c = r.c
+                       /\ (MembershipOnly /\ r.k = "pin") \/ Conforms(r.c, a)
 
 Shape == CASE h = "list" -> "list" [] h = "dict" -> "dict" [] h = "tuple" -> "tuple" [] OTHER -> "atom"
 \* the isinstance() tests the generated wrapper performs, in its order, short-circuiting
@@ -235,7 +253,8 @@ EvOut(f, obj) ==
   IF ~EvAll THEN "na"
   ELSE IF Early(obj) # "go" THEN Early(obj)
   ELSE IF \A i \in 1..Len(Leaves(obj)) :
-            LET n == Leaves(obj)[i][1] a == Leaves(obj)[i][2] IN a.t = "inst" /\ a.c = fn[f].evcap[n]
+            LET n == Leaves(obj)[i][1] a == Leaves(obj)[i][2]
+            IN a.t = "inst" /\ a.c = fn[f].evcap[n] /\ Conforms(a.c, a)
        THEN "accept" ELSE "violation"
 
 (* ---- declarative: what C07 allows ------------------------------------------------- *)
@@ -243,7 +262,7 @@ Env(f, n) == IF fn[f].evcap[n] # 0 THEN fn[f].evcap[n]
              ELSE IF fn[f].pin[n] # 0 THEN fn[f].pin[n]
              ELSE Lex(fn[f].home, n, bind)
 \* three-valued: "U" = depends on a name that is not bound
-LeafK(e, a) == IF e = 0 THEN "U" ELSE IF a.t = "inst" /\ a.c = e THEN "T" ELSE "F"
+LeafK(e, a) == IF e = 0 THEN "U" ELSE IF a.t = "inst" /\ a.c = e /\ Conforms(e, a) THEN "T" ELSE "F"
 KAnd(x, y) == IF x = "F" \/ y = "F" THEN "F" ELSE IF x = "U" \/ y = "U" THEN "U" ELSE "T"
 \* verdict under the environment e : HN -> ClassId
 K3(obj, e) ==
@@ -274,7 +293,9 @@ GhostAfter(f, obj) ==
 (* ---- objects ---------------------------------------------------------------------- *)
 \* instances of every class statement executed so far for a name of the hint (the right one,
 \* other definitions, other activations, same name in another scope), an unrelated instance, None
-AtomsFor(n) == {Atom("inst", i) : i \in {j \in 1..Len(cls) : cls[j].name = n}} \cup {Unrel, NoneAtom}
+AtomsFor(n) == {Atom("inst", i, IF cls[i].kind = "gen" THEN "ok" ELSE "") : i \in {j \in 1..Len(cls) : cls[j].name = n}}
+               \cup {Atom("inst", i, "bad") : i \in {j \in 1..Len(cls) : cls[j].name = n /\ cls[j].kind = "gen"}}
+               \cup {Unrel, NoneAtom}
 Objs ==
   IF h = "tuple" THEN {Obj("tuple", a, b) : a \in AtomsFor("N"), b \in AtomsFor("K")} \cup {Obj("atom", Unrel, NoneAtom)}
   ELSE {Obj(Shape, a, NoneAtom) : a \in AtomsFor(N1)} \cup
@@ -286,14 +307,15 @@ NDefs == Cardinality({i \in 1..Len(cls) : cls[i].name \in {"N", "K"}})
 Tick == steps < MaxSteps /\ steps' = steps + 1
 
 Init ==
-  /\ p \in Placements /\ h \in Hints
+  /\ p \in Placements /\ h \in Hints /\ gk \in Kinds
+  /\ h = "Self" => gk = "plain"
   /\ h = "Self" => p \in {"method", "method_cd", "nmethod"}
   /\ lnames \in (IF p \in {"closure", "cmethod"} THEN SUBSET HintNames(h, p) ELSE {{}})
   /\ pc = IF p = "modfunc" THEN "M" ELSE "M0"
   \* closure in a method: the class of that method may itself define N (never visible to the closure)
   /\ \E cdef \in (IF p = "cmethod" /\ h # "Self" THEN BOOLEAN ELSE {FALSE}) :
         /\ bind = IF cdef THEN [EmptyBind EXCEPT !["C"]["N"] = 1] ELSE EmptyBind
-        /\ cls = IF cdef THEN <<[name |-> "N", scope |-> "C"]>> ELSE <<>>
+        /\ cls = IF cdef THEN <<[name |-> "N", scope |-> "C", kind |-> gk]>> ELSE <<>>
   /\ body = <<>>
   /\ fn = [i \in 1..2 |-> NoFn]
   /\ last = Stmt("Init", "M", "") /\ steps = 0 /\ ncalls = 0
@@ -313,11 +335,11 @@ DefineOK(n) ==
   /\ IsCD /\ fn[1].dec /\ ~fn[1].ready /\ CurScope = fn[1].home => fn[1].evcap[n] = 0
 DoDefine(n, act) ==
   /\ Tick /\ DefineOK(n)
-  /\ cls' = Append(cls, [name |-> n, scope |-> CurScope])
+  /\ cls' = Append(cls, [name |-> n, scope |-> CurScope, kind |-> KindOf(n)])
   /\ bind' = [bind EXCEPT ![CurScope][n] = Len(cls) + 1]
   /\ body' = IF pc = "F1" THEN Append(body, [k |-> "def", n |-> n]) ELSE body
   /\ last' = Stmt(act, CurScope, n)
-  /\ UNCHANGED <<p, h, lnames, pc, fn, ncalls>>
+  /\ UNCHANGED <<p, h, gk, lnames, pc, fn, ncalls>>
 Define(n)   == bind[CurScope][n] = 0 /\ DoDefine(n, "Define")
 Redefine(n) == bind[CurScope][n] # 0 /\ DoDefine(n, "Redefine")
 
@@ -328,45 +350,45 @@ Decorate ==
   /\ fn' = [fn EXCEPT ![1] = NewFn(Home(1), bind, ~IsCD)]
   /\ body' = IF pc = "F1" THEN Append(body, [k |-> "dec", n |-> ""]) ELSE body
   /\ last' = Stmt("Decorate", CurScope, "")
-  /\ UNCHANGED <<p, h, lnames, pc, bind, cls, ncalls>>
+  /\ UNCHANGED <<p, h, gk, lnames, pc, bind, cls, ncalls>>
 
 EnterC == /\ Tick /\ pc = "M0" /\ p \in {"method", "method_cd", "nmethod", "nmethod_cd"}
           /\ pc' = IF p \in {"method", "method_cd"} THEN "C" ELSE "C0"
           /\ last' = Stmt("EnterC", "C", "")
-          /\ UNCHANGED <<p, h, lnames, bind, cls, fn, body, ncalls>>
+          /\ UNCHANGED <<p, h, gk, lnames, bind, cls, fn, body, ncalls>>
 EnterD == /\ Tick /\ pc = "C0"
           /\ pc' = "D" /\ last' = Stmt("EnterD", "D", "")
-          /\ UNCHANGED <<p, h, lnames, bind, cls, fn, body, ncalls>>
+          /\ UNCHANGED <<p, h, gk, lnames, bind, cls, fn, body, ncalls>>
 \* the class statement of D completes: D is bound in the namespace of C
 LeaveD == /\ Tick /\ pc = "D" /\ fn[1].dec
-          /\ cls' = Append(cls, [name |-> "D", scope |-> "C"])
+          /\ cls' = Append(cls, [name |-> "D", scope |-> "C", kind |-> "plain"])
           /\ bind' = [bind EXCEPT !["C"]["D"] = Len(cls) + 1]
           /\ pc' = "C1" /\ last' = Stmt("LeaveD", "D", "")
-          /\ UNCHANGED <<p, h, lnames, fn, body, ncalls>>
+          /\ UNCHANGED <<p, h, gk, lnames, fn, body, ncalls>>
 \* the class statement of C completes: C is bound in the module; @beartype on the class runs
 LeaveC == /\ Tick /\ pc \in {"C", "C1"} /\ fn[1].dec
-          /\ cls' = Append(cls, [name |-> "C", scope |-> "M"])
+          /\ cls' = Append(cls, [name |-> "C", scope |-> "M", kind |-> "plain"])
           /\ bind' = [bind EXCEPT !["M"]["C"] = Len(cls) + 1]
           /\ fn' = IF IsCD THEN [fn EXCEPT ![1] = [NewFn(Home(1), bind', TRUE) EXCEPT !.evcap = fn[1].evcap]]
                            ELSE fn
           /\ pc' = "M1" /\ last' = Stmt("LeaveC", "C", "")
-          /\ UNCHANGED <<p, h, lnames, body, ncalls>>
+          /\ UNCHANGED <<p, h, gk, lnames, body, ncalls>>
 
 \* outer() is called / C().meth() is called: first activation
 EnterF == /\ Tick /\ pc = "M0" /\ IsFun
           /\ pc' = "F1" /\ last' = Stmt("EnterF", "F1", "")
-          /\ UNCHANGED <<p, h, lnames, bind, cls, fn, body, ncalls>>
+          /\ UNCHANGED <<p, h, gk, lnames, bind, cls, fn, body, ncalls>>
 LeaveF == /\ Tick /\ pc \in {"F1", "F2"} /\ fn[1].dec
           /\ pc' = IF pc = "F1" THEN "M1" ELSE "M2"
           /\ last' = Stmt("LeaveF", pc, "")
-          /\ UNCHANGED <<p, h, lnames, bind, cls, fn, body, ncalls>>
+          /\ UNCHANGED <<p, h, gk, lnames, bind, cls, fn, body, ncalls>>
 \* second activation: the same statements run again with new identities and a new closure
 RECURSIVE Replay(_, _, _, _)
 Replay(i, b, cl, f2) ==
   IF i > Len(body) THEN [b |-> b, cl |-> cl, f2 |-> f2]
   ELSE IF body[i].k = "def"
        THEN Replay(i + 1, [b EXCEPT !["F2"][body[i].n] = Len(cl) + 1],
-                   Append(cl, [name |-> body[i].n, scope |-> "F2"]), f2)
+                   Append(cl, [name |-> body[i].n, scope |-> "F2", kind |-> KindOf(body[i].n)]), f2)
        ELSE Replay(i + 1, b, cl,
                    [NewFn("F2", b, TRUE) EXCEPT !.alias =
                       /\ SharedProxy /\ h \notin {"N", "Self"}
@@ -381,7 +403,7 @@ EnterF2 == /\ Tick /\ pc = "M1" /\ IsFun /\ NDefs + BodyDefs <= MaxDefs
            /\ LET r == Replay(1, bind, cls, NoFn)
               IN bind' = r.b /\ cls' = r.cl /\ fn' = [fn EXCEPT ![2] = r.f2]
            /\ pc' = "F2" /\ last' = Stmt("EnterF2", "F2", "")
-           /\ UNCHANGED <<p, h, lnames, body, ncalls>>
+           /\ UNCHANGED <<p, h, gk, lnames, body, ncalls>>
 
 \* the proxies of f are also those of the other activation's closure
 SharedWith(f) == fn[f].alias \/ (f = 1 /\ fn[2].alias)
@@ -391,7 +413,10 @@ Blame(f, fm, obj, r, i) ==
   IF Early(obj) # "go" \/ i > Len(r.vias) THEN ""
   ELSE LET n == Leaves(obj)[i][1]
            x == r.res[n]
+           a == Leaves(obj)[i][2]
        IN IF x.k = "fake" THEN "fake"
+          ELSE IF x.k = "pin" /\ x.c = Env(f, n) /\ a.t = "inst" /\ a.c = x.c /\ ~Conforms(x.c, a) /\ MembershipOnly
+               THEN "membershiponly"
           ELSE IF x.k \in {"cap", "pin"} /\ x.c # Env(f, n)
                THEN (IF x.w \notin {0, f} THEN "sharedproxy" ELSE x.o)
           ELSE IF x.k \in {"proxy", "failed"} /\ Env(f, n) # 0 /\ i = Len(r.vias) /\ r.out = "fwdref"
@@ -413,7 +438,7 @@ Call(f, obj) ==
                     via |-> [a |-> IF Len(vs) >= 1 THEN vs[1] ELSE "", b |-> IF Len(vs) >= 2 THEN vs[2] ELSE ""],
                     evok |-> EvAll, shared |-> SharedWith(f),
                     blame |-> [fm \in StrForms |-> [a |-> Blame(f, fm, obj, rs[fm], 1), b |-> Blame(f, fm, obj, rs[fm], 2)]]]
-  /\ UNCHANGED <<p, h, lnames, pc, bind, cls, body>>
+  /\ UNCHANGED <<p, h, gk, lnames, pc, bind, cls, body>>
 
 CallAny == \E f \in 1..2 : \E obj \in Objs : Call(f, obj)
 Next == \/ \E n \in {"N", "K"} : Define(n) \/ Redefine(n)
